@@ -155,6 +155,12 @@ def inject(rng, stmts, marker):
         st[idx] = items
         return stmts, kind, tag, where + ':' + follows
     tmpl, tag = rng.choice(RULE_GARBAGE if kind == 'rule' else AT_GARBAGE)
+    if kind == 'at' and rng.random() < 0.15:
+        # a misplaced @namespace that re-declares an existing prefix (or the default namespace) with another URI
+        declared = [st[1] for st in stmts if st[0] == 'namespace']
+        if declared:
+            pfx = rng.choice(declared)
+            tmpl, tag = '@namespace ' + ((pfx + ' ') if pfx else '') + '"urn:{m}";', 'misplaced-namespace'
     # statement boundary: top level (after the prologue) or inside @media
     medias = [st for st in stmts if st[0] == 'media']
     if medias and rng.random() < 0.3 and tag not in ('misplaced-import', 'misplaced-charset', 'misplaced-namespace', 'margin-box-outside-page'):
